@@ -512,6 +512,13 @@ def math_reqs(tier, seed, unit, nunits, ops, tag):
                 x = rng.choice(xs) if rng.random() < 0.3 else G.clip(s, n, int(rng.uniform(0.01, 40) * one))
                 y = rng.choice([0, one, -one, 2 * one, one >> 1, 3 * one]) if rng.random() < 0.3 else G.clip(s, n, int(rng.uniform(-8, 8) * one))
                 out.append(treq(op, S, x, D, y))
+            # x = 1 +- j ulp with a huge exponent: ln's ABSOLUTE error (up to 8 ulp, C14) is multiplied by |y| (finding D16 and its boundary)
+            for _ in range(k // 8):
+                j = rng.choice([1, 1, 2, 3, 5, 17, 100])
+                x = one + rng.choice([1, -1]) * j
+                t = rng.uniform(0.05, 8)                      # target |y ln x|
+                ybits = int(t * one * one / j) * rng.choice([1, -1])
+                out.append(treq(op, S, G.clip(s, n, x), D, G.clip(s, n, ybits)))
         elif op == 't_powi':
             xs = G.math_vals(rng, s, n, f, 40)
             edge_n = [0, 1, -1, 2, -2, 3, 7, -7, 31, 32, 33, 63, 64, 127, 128, 1000, -1000]
@@ -620,7 +627,7 @@ PROPS = {
     'C01': dict(lean_modules=['SfxProps.C01'], bins=['arith'], profiles=['chk', 'rel'], gen=gen_C01, thorough_all_fracs=True),
     'C06': dict(lean_modules=['SfxProps.C06'], bins=['arith'], profiles=['chk', 'rel'], gen=gen_C06, thorough_all_fracs=True),
     'C07': dict(lean_modules=['SfxProps.C07'], bins=['arith'], profiles=['chk', 'rel'], gen=gen_C07, thorough_all_fracs=True),
-    'C18': dict(lean_modules=['SfxProps.C18'], bins=['wrap', 'conv', 'text'], profiles=['chk', 'rel'], gen=gen_C18, thorough_all_fracs=True,
+    'C18': dict(lean_modules=['SfxProps.C18', 'SfxProps.C18Entry'], bins=['wrap', 'conv', 'text'], profiles=['chk', 'rel'], gen=gen_C18, thorough_all_fracs=True,
                 rule='programs of 1..12 Wrapping operations (every impl variant is a distinct step kind); de-duplicated per unit; '
                      'non-trivial = some operand magnitude > 1; evaluations counts program x profile executions'),
     'C10': dict(lean_modules=['SfxProps.C10'], bins=['codec'], profiles=['chk', 'rel'], gen=gen_C10, thorough_all_fracs=True,
